@@ -55,6 +55,12 @@ theorem second_file_ignores_first_file_options (a a' : Args) (gf gf' gt : Option
   split at hp' <;> try contradiction
   simp_all [pure, Except.pure]
 
+-- [audit] non-vacuity: all four hypotheses at once, with first-file options and guesses that differ
+example := second_file_ignores_first_file_options
+  { fromType := some "yaml", toMime := some "text/x-json5" }
+  { fromMime := some "text/csv", toMime := some "text/x-json5", noKeyEdits := true }
+  (some "text/plain") none (some "application/xml") rfl rfl "yaml" "csv" "json5" "json5" (by decide) (by decide)
+
 /-- `-k` ≡ `--dict-strategy none` -/
 theorem alias_k (a : Args) :
     buildOpts { a with noKeyEdits := true, dictStrategy := none }
@@ -70,6 +76,15 @@ theorem alias_j (a : Args) :
 theorem default_is_auto (a : Args) (h : a.noKeyEdits = false) :
     buildOpts { a with dictStrategy := none } = buildOpts { a with dictStrategy := some "auto" } := by
   simp [buildOpts, h]
+
+-- [audit] explicit_mime_wins, alias_k, alias_j hold by `rfl` (they unfold the model's definitions)
+example (m : String) (ty g g' : Option String) : getFiletype g (selectMime (some m) ty) = getFiletype g' (some m) := rfl
+example (a : Args) : buildOpts { a with noKeyEdits := true, dictStrategy := none }
+      = buildOpts { a with noKeyEdits := false, dictStrategy := some "none" } := rfl
+example (a : Args) : printerOpts { a with condensed := true }
+      = printerOpts { a with condensed := false, joinLists := true, joinDictItems := true } := rfl
+-- [audit] non-vacuity of default_is_auto's hypothesis
+example := default_is_auto { fromType := some "json", noListEdits := true } rfl
 
 -- non-vacuity: the table is not empty and contains the types the property names
 example : ("yaml", "application/x-yaml", ["application/x-yaml", "application/yaml", "text/yaml", "text/x-yaml", "text/vnd.yaml"]) ∈ Gen.fileTypes := by decide
